@@ -49,7 +49,7 @@ CLAIMED = {
    note='Trusted: z3; specs/bocspec.py as a faithful strict reading of boc.tlb; CRC as uninterpreted function on both sides (span check by congruence).'),
  'C09': dict(
    text='Bounded symbolic execution of the real HashMap/hashmap.utils/hashmap.parse/Slice/Builder code: every non-empty key set of widths 1..3 '
-        '(width 4: seeded 150 quick / all 65 535 thorough) in several insertion orders, five parse routes, six value kinds with ALL values symbolic; '
+        '(width 4: 150 seeded sets quick / 12 000 seeded sets thorough) in several insertion orders, five parse routes, six value kinds with ALL values symbolic; '
         'two or three fully symbolic keys for small widths and keys symbolic in a bit window for widths 16..1023 (dictionary keys compare symbolically, '
         'the prefix structure is explored by solver-decided forks); signed keys over width+2 bits: the solver shows for all values that the parsed pairs '
         'are exactly the inserted ones in ascending order, independent of insertion order, that the empty map is no cell, and that a key is rejected '
